@@ -11,6 +11,7 @@ import (
 	"fmt"
 	"net/netip"
 	"sort"
+	"strconv"
 	"strings"
 	"testing"
 
@@ -187,16 +188,45 @@ func c36Apply(s *c36State, e c36Ev) {
 	s.nops++
 }
 
-func c36Dump(n *CIDRNode, b *strings.Builder) {
+func c36DumpU(u *c36Univ, n *CIDRNode, b *strings.Builder) {
 	if n == nil {
 		b.WriteString("-")
 		return
 	}
-	fmt.Fprintf(b, "(%s=%v ", n.cidr.String(), n.data)
-	c36Dump(n.children[0], b)
+	if i, ok := u.idx[n.cidr]; ok {
+		b.WriteString("(#")
+		b.WriteString(strconv.Itoa(i))
+	} else {
+		b.WriteString("(")
+		b.WriteString(n.cidr.String())
+	}
+	if n.data == nil {
+		b.WriteString("=<nil> ")
+	} else if d, ok := n.data.(string); ok {
+		b.WriteString("=" + d + " ")
+	} else {
+		fmt.Fprintf(b, "=%v ", n.data)
+	}
+	c36DumpU(u, n.children[0], b)
 	b.WriteString(" ")
-	c36Dump(n.children[1], b)
+	c36DumpU(u, n.children[1], b)
 	b.WriteString(")")
+}
+
+func c36RefKey(s *c36State) string {
+	ix := make([]int, 0, len(s.ref))
+	for i := range s.ref {
+		ix = append(ix, i)
+	}
+	sort.Ints(ix)
+	var b strings.Builder
+	for _, i := range ix {
+		b.WriteString(strconv.Itoa(i))
+		b.WriteString("=")
+		b.WriteString(s.ref[i])
+		b.WriteString(",")
+	}
+	return b.String()
 }
 
 func c36RefString(s *c36State) string {
@@ -214,8 +244,8 @@ func c36RefString(s *c36State) string {
 
 func c36Key(s *c36State) string {
 	var b strings.Builder
-	c36Dump(s.t.root, &b)
-	return b.String() + "|" + c36RefString(s)
+	c36DumpU(s.u, s.t.root, &b)
+	return b.String() + "|" + c36RefKey(s)
 }
 
 // c36Canonical reports whether the trie's internal structure equals that of a trie built fresh
@@ -231,9 +261,21 @@ func c36Canonical(s *c36State) bool {
 		f.Update(s.u.queries[i], s.ref[i])
 	}
 	var a, b strings.Builder
-	c36Dump(s.t.root, &a)
-	c36Dump(f.root, &b)
+	c36DumpU(s.u, s.t.root, &a)
+	c36DumpU(s.u, f.root, &b)
 	return a.String() == b.String()
+}
+
+func c36SameSet(a, b map[int]bool) bool {
+	if len(a) != len(b) {
+		return false
+	}
+	for i := range a {
+		if !b[i] {
+			return false
+		}
+	}
+	return true
 }
 
 func c36SetStr(u *c36Univ, m map[int]bool) string {
@@ -428,7 +470,7 @@ func c36Check(c *vk.Ctx, s *c36State, hist []c36Ev) []hbfs.Fail {
 			for _, i := range enclosing {
 				wantp[i] = true
 			}
-			if c36SetStr(u, gotp) != c36SetStr(u, wantp) {
+			if !c36SameSet(gotp, wantp) {
 				add("lookuppath", "LookupPath(%v)=%s want %s (pass %d)", q, c36SetStr(u, gotp), c36SetStr(u, wantp), pass)
 			}
 		}
@@ -472,7 +514,7 @@ func c36Check(c *vk.Ctx, s *c36State, hist []c36Ev) []hbfs.Fail {
 				}
 				if stored {
 					// documented domain: parent is in the trie -> exact answer
-					if bad || c36SetStr(u, gotd) != c36SetStr(u, wantd) {
+					if bad || !c36SameSet(gotd, wantd) {
 						add("closest", "ClosestDescendants(%v)=%v want %s (pass %d)", q, res, c36SetStr(u, wantd), pass)
 					}
 				} else if pass == 0 {
@@ -548,7 +590,7 @@ func c36Spec(u *c36Univ, vals []string, depth int, tree bool, c *vk.Ctx) *hbfs.S
 				c.Add("noncanonical_states_seen", 1)
 			}
 			var b strings.Builder
-			c36Dump(s.t.root, &b)
+			c36DumpU(s.u, s.t.root, &b)
 			return fmt.Sprintf("%s stored=%d intermediates=%d canon=%v", u.name, len(s.ref), strings.Count(b.String(), "=<nil>"), canon)
 		},
 		PanicKey: func(val string, hist []c36Ev) string { return "C36:panic-in-update-or-delete" },
@@ -613,12 +655,12 @@ func TestVerif_C36(t *testing.T) {
 		}
 		// 2. graph mode with two values per prefix on the small universes (value replacement): fixpoint
 		for _, n := range []string{"v4small", "v6small"} {
-			st := hbfs.Explore(c, c36Spec(us[n], []string{"1", "2"}, c.Pick(5, 40), false, c))
-			c.Extra("fixpoint2:"+n, st.Complete && st.Depth < c.Pick(5, 40))
+			st := hbfs.Explore(c, c36Spec(us[n], []string{"1", "2"}, 40, false, c))
+			c.Extra("fixpoint2:"+n, st.Complete && st.Depth < 40)
 		}
 		// 3. tree mode (no merging at all) on the small universes
 		for _, n := range []string{"v4small", "v6small"} {
-			hbfs.Explore(c, c36Spec(us[n], nil, c.Pick(3, 5), true, c))
+			hbfs.Explore(c, c36Spec(us[n], nil, c.Pick(3, 4), true, c))
 		}
 	})
 }
